@@ -777,3 +777,4 @@ READY = True
 # texts brought up to date with the rules above (they supersede the first versions at the top of the module)
 LEVEL_TEXT = LEVEL_TEXT + (" Also: tee targets are not O_APPEND; sendfile() is repeated until the count is done; the executor leaves its own "
                            "descriptors 0/1/2 alone.")
+LEVEL_TEXT = LEVEL_TEXT + " The buffered writer of the mail headers reports success only when the text fitted (walk around the buffer's end, shared with C05/C06)."
